@@ -17,14 +17,14 @@ pub(crate) fn calculate_hash<T: Hash>(t: &T) -> u64 {
 #[serde(untagged)]
 pub enum StringOrMapVecString {
     String(String),
-    Map(std::collections::HashMap<String, Vec<String>>),
+    Map(IndexMap<String, Vec<String>>),
 }
 
 #[derive(Debug, Serialize, Deserialize, Clone, PartialEq, Eq)]
 #[serde(untagged)]
 pub enum StringOrMapString {
     String(String),
-    Map(std::collections::HashMap<String, String>),
+    Map(IndexMap<String, String>),
 }
 
 impl From<StringOrMapString> for crate::model::VarExportSpec {
@@ -35,7 +35,7 @@ impl From<StringOrMapString> for crate::model::VarExportSpec {
                 content: None,
             },
             StringOrMapString::Map(mut m) => {
-                let (k, v) = m.drain().last().unwrap();
+                let (k, v) = m.drain(..).last().unwrap();
                 VarExportSpec {
                     variable: k,
                     content: Some(v),
